@@ -31,6 +31,7 @@ type vGen struct {
 	nameOffs []int  // offsets of domain names inside g.wire
 	nameComp []bool // whether the RFC allows compressing that name
 	bad    string
+	fixedLabels [][]byte // if set, every name (owner and RDATA) is this name
 	vals    []uint64 // every symbolic draw, in order
 	like    *vGen    // reuse the draws of this generator ...
 	mut     int      // ... except draw number mut (fresh)
@@ -302,6 +303,9 @@ func (g *vGen) octets(k int, textual bool) []byte {
 }
 
 func (g *vGen) drawLabels() [][]byte {
+	if g.fixedLabels != nil {
+		return g.fixedLabels
+	}
 	nl := g.choice(g.nm()+"nl", g.maxLabels+1)
 	labels := make([][]byte, nl)
 	for i := range labels {
@@ -1050,12 +1054,18 @@ func vBuildRR(pfx string, t uint16) (RR, []byte, *vGen) { return vBuildRRLike(pf
 
 // vBuildRRLike draws a record with the same shape (all length/variant choices) as the one drawn by like.
 func vBuildRRLike(pfx string, t uint16, like *vGen, mut int) (RR, []byte, *vGen) {
+	return vBuildRRWith(pfx, t, func(g *vGen) {
+		if like != nil {
+			g.replay = append([]int{}, like.choices...)
+			g.like = like
+			g.mut = mut
+		}
+	})
+}
+
+func vBuildRRWith(pfx string, t uint16, setup func(g *vGen)) (RR, []byte, *vGen) {
 	g := vNewGen(pfx)
-	if like != nil {
-		g.replay = append([]int{}, like.choices...)
-		g.like = like
-		g.mut = mut
-	}
+	setup(g)
 	mk := TypeToRR[t]
 	var rr RR
 	if mk != nil {
